@@ -63,6 +63,8 @@ type Disk struct {
 	locked bool
 	closed bool
 
+	injected int
+
 	MaxExtent int64
 
 	// Fault is consulted for every call of kind w/sync/trunc/size/mmap with the
@@ -104,7 +106,18 @@ func (d *Disk) fault(kind string) FaultMode {
 	if d.Fault == nil {
 		return NoFault
 	}
-	return d.Fault(kind, n, d.nops)
+	m := d.Fault(kind, n, d.nops)
+	if m != NoFault {
+		d.injected++
+	}
+	return m
+}
+
+// Injected returns the number of injected failures so far.
+func (d *Disk) Injected() int {
+	d.mu.Lock()
+	defer d.mu.Unlock()
+	return d.injected
 }
 
 func (d *Disk) log(op Op) {
